@@ -125,6 +125,13 @@ class EinSum(Operation):
             self._cache = Counter(zip((id(v) for v in self.variables), self.in_lbls))
         return self._cache
 
+    def backward(self, grad, **kwargs):
+        # The cache serves a single pass of back-propagation through this operation.
+        # Rebuild it for each pass so that backprop can be re-run (e.g. after an
+        # earlier pass was interrupted by an exception)
+        self._cache = None
+        super().backward(grad, **kwargs)
+
     def backward_var(self, grad, index, **kwargs):
         """
         example
